@@ -92,7 +92,7 @@ claim('C13', 'must-check gates per exit and per completed loop iteration + certi
 claim('C14', 'typestate of the temp-file protocol + who-may-write inventory + parameter-use confinement + constant analysis (key / temp alphabets)',
       'Static: decides the structural preconditions under which POSIX rename makes an entry absent-or-complete — the entry is written only by a writer that creates a fresh file with os.CreateTemp in the cache root, writes the whole content, closes, '
       'then renames it over Join(root, key(url)), each step only after the previous succeeded, the destination path reaching nothing but Rename; the bytes handed to the writer belong to the call alone (never a view of a pooled or shared buffer); nothing else in verifier/crl mutates files; keys are the full hex SHA-256 of the URL and temp names contain a non-hex rune; '
-      'the reader performs exactly one whole-file read per Get; Set reports success only after the marshalled entry was written (C15 set/write-error and set/writes-marshalled-entry, re-decided under C14 keys: no read after a returned write sees an older bundle because the write was skipped). This is the clause the record\'s own mutation (in-place write) breaks. NOT decided: the interleavings and crash points themselves, which are reduced to the trusted atomicity of rename(2) within one directory; no durability claim.', 'DESIGN.md 2/C14',
+      'the reader performs exactly one whole-file read per Get; Set reports success only after the entry was written (C15 set/write-error, re-decided under C14 keys: no read after a returned write sees an older bundle because the write was skipped). This is the clause the record\'s own mutation (in-place write) breaks. NOT decided: the interleavings and crash points themselves, which are reduced to the trusted atomicity of rename(2) within one directory; no durability claim.', 'DESIGN.md 2/C14',
       'The hook proposed in the property record (pausing WriteFile at step boundaries) belongs to a dynamic technique and is not used.')
 claim('C15', 'reader/writer field agreement + must-check gates (incl. disjunctive delta gates) + path provenance (URL confinement) on SSA',
       'Static, all-paths: Set stores bundle.X.Raw into entry field X and Get parses field X into bundle.X under distinct JSON names; Get succeeds only through read, decode, base parse, delta parse when stored, base expiry and delta expiry when present; '
